@@ -102,6 +102,10 @@ def gen_teams(rng, stratum, beta, n=None, maxsize=8):
             c = math.sqrt(2 * sz * sig * sig + 2 * beta * beta)
             z = rng.uniform(4, 9) * rng.choice([1, 1, -1])
             teams.append([((base + z * c * (i % 3)) / sz, sig) for _ in range(sz)])
+    elif stratum == "floor":
+        # multi-player teams with unequal sigmas; used with a large gamma so that the kappa floor is reached
+        for _ in range(n):
+            teams.append([(rng.gauss(25, 8) * s, rng.choice([0.3, 2, 9, 9]) * rng.uniform(0.8, 1.2) * s) for _ in range(rng.randint(2, 3))])
     elif stratum == "identical":
         sz = rng.randint(1, 3)
         t = [(rng.gauss(25, 8) * s, rng.uniform(0.5, 9) * s) for _ in range(sz)]
@@ -115,7 +119,7 @@ def gen_teams(rng, stratum, beta, n=None, maxsize=8):
     return teams
 
 
-STRATA = ["typical", "typical", "wide", "corners", "mismatch", "identical", "equalsize"]
+STRATA = ["typical", "typical", "wide", "corners", "mismatch", "identical", "equalsize", "floor"]
 
 
 def gen_config(rng, default_bias=0.4):
@@ -132,6 +136,8 @@ def gen_game(rng, kind=None, stratum=None, ties=None, n=None, maxsize=8, encode=
     kind = kind or rng.choice(KINDS)
     stratum = stratum or rng.choice(STRATA)
     beta, kappa, tau = gen_config(rng)
+    if stratum == "floor" and n is None:
+        n = rng.randint(4, 8)
     teams = gen_teams(rng, stratum, beta, n=n, maxsize=maxsize)
     n = len(teams)
     r = rng.random()
@@ -147,6 +153,8 @@ def gen_game(rng, kind=None, stratum=None, ties=None, n=None, maxsize=8, encode=
         else:
             oc = ("R", vals)
     gamma = rng.choice(GAMMAS)
+    if stratum == "floor":
+        gamma = ("C", rng.choice([3.0, 10.0, 40.0]))
     tauopt = lsopt = None
     ls = False
     if options:
